@@ -45,6 +45,9 @@ func (c *Ctx) callersOf(target *ssa.Function) (sites []CallSite, asValue []ssa.I
 				if ci, ok := in.(ssa.CallInstruction); ok && ci.Common().Value == ssa.Value(target) {
 					continue
 				}
+				if _, isMC := in.(*ssa.MakeClosure); isMC && target.Parent() != nil && c.calledOnly(target) {
+					continue // the closure object of a local helper that is only ever called
+				}
 				asValue = append(asValue, in)
 			}
 		}
